@@ -51,6 +51,30 @@ def make(debug, cells=None):
     def varboom(*a):
         counter[0] += 1
         raise ValueError('unexpected reading %d.%d for row %d' % (counter[0], counter[0] * 7, counter[0] * 13))
+    def ctxboom(*a):
+        # a host function that handles one spreadsheet error and raises another (shared) one from inside the handler
+        try:
+            raise err.NOT_AVAILABLE
+        except err.XLError:
+            raise err.VALUE
+
+    def ctxnest(*a):
+        # ... or that evaluates a failing fall-back formula on this parser from inside the handler
+        try:
+            raise err.NUM
+        except err.XLError:
+            return P.parse('BOOM(1)')['error']
+    class BadRepr(object):
+        def __repr__(self):
+            raise RuntimeError('repr() of this host object fails')
+        __str__ = __repr__
+    deep = [1]
+    for _ in range(3000):
+        deep = [deep]
+    P.set_variable('v_badrepr', BadRepr())
+    P.set_variable('v_deep', deep)
+    P.set_function('CTXBOOM', ctxboom)
+    P.set_function('CTXNEST', ctxnest)
     P.set_function('VARBOOM', varboom)
     P.set_function('BOOM', boom)
     P.set_function('XBOOM', xboom)
@@ -102,7 +126,7 @@ failing = st.one_of(
                      '1/0', 'v_s+1', 'nosuch', 'NOSUCH(1)', 'SUM(v_e)', 'v_e', 'INDEX(v_l,9)', 'SQRT(-1)', 'IF()', 'LEFT(1)', 'MAX("a")',                # run-time errors
                      '#N/A', '1+#REF!', '#GETTING_DATA', '#NULL!',                                                                                       # error literals
                      'BOOM(1)', '1+BOOM(2)*3', 'XBOOM()', 'SUM(1,XBOOM())', 'Z9', 'Z9+1', 'IFERROR(BOOM(),1)', 'CONCATENATE(1/0)', 'IFERROR(CONCATENATE(1/0),1)',  # raising callbacks
-                     'INNERFAIL(1)', '1+INNERFAIL(BOOM(1))', 'ID(INNERFAIL())+BOOM()']),                                                                # nested failures
+                     'INNERFAIL(1)', '1+INNERFAIL(BOOM(1))', 'ID(INNERFAIL())+BOOM()', 'CTXBOOM()', '1+CTXBOOM(2)', 'IFERROR(CTXBOOM(),1)', 'CTXNEST()', 'CTXNEST()&CTXBOOM()']),                                                                # nested failures
     trees(extra_calls=('BOOM', 'XBOOM', 'INNERFAIL')),
     valid.map(lambda s: s[:max(1, len(s) // 2)]),
 )
@@ -110,7 +134,10 @@ other_reg = st.tuples(st.just('$other'), st.sampled_from(['ID', 'EXTRA', 'SUM', 
 rebinding = st.one_of(other_reg, st.tuples(st.just('$set'), st.sampled_from(['v_a', 'v_s', 'v_l', 'v_new']), st.one_of(st.integers(-9, 99), st.sampled_from(['other', 2.5, None]), st.lists(st.integers(0, 9), min_size=1, max_size=4))).map(list),
                       st.tuples(st.just('$cell'), st.sampled_from(['B2', 'C3', 'D4', 'E5']), st.one_of(st.integers(-9, 99), st.sampled_from(['changed', 0, None]))).map(list))
 history_case = st.fixed_dictionaries({'debug': st.booleans(), 'history': st.lists(st.one_of(failing, failing, valid, rebinding), min_size=1, max_size=12),
-                                      'probes': st.lists(st.one_of(valid, valid, failing, st.sampled_from(['EXTRA(1)', 'ID(2)+SUM(1,2)', 'v_other', 'v_a+1', 'INNEROK(1)'])), min_size=1, max_size=3)})
+                                      'probes': st.lists(st.one_of(valid, valid, failing, st.sampled_from(['EXTRA(1)', 'ID(2)+SUM(1,2)', 'v_other', 'v_a+1', 'INNEROK(1)']),
+                                                                  # values that cannot be printed: integers beyond the 4300-digit conversion limit, a host object whose repr() fails, a list nested 3000 deep
+                                                                  st.sampled_from(['FACT(2000)>0', 'MOD(FACT(3000),7)', '2^20000>1', 'ISNUMBER(FACT(2500))', 'IF(1,2,v_badrepr)', 'ISTEXT(ID(v_badrepr))', 'COUNT(v_deep)', 'IF(1,2,v_deep)', 'LEN(FACT(2000))'])),
+                                                min_size=1, max_size=3)})
 
 
 def apply_binding(P, cells, h, others=None):
@@ -165,6 +192,11 @@ def check_history(case):
             g = quiet_parse(P, p)
             if g['error'] is not None or g['result'] != w:
                 raise Violation('after the history %r the parser evaluates %r to %r; its listener answers from the coordinates of the reference, which give %r' % (case['history'][:step + 1], p, g, w), g['error'] or enc(g['result']), w)
+        # error codes are facts too: whatever was raised, chained or handled before, these fail with their own code
+        for p, w in (('"q"+1', '#VALUE!'), ('1/0', '#DIV/0!'), ('NA()', '#N/A'), ('IFERROR("q"+1,"trapped")', None), ('CTXNEST()', None), ('XBOOM()', '#REF!'), ('BOOM()', '#ERROR!')):
+            g = quiet_parse(P, p)
+            if g['error'] != w or (w is None and g['result'] != {'IFERROR("q"+1,"trapped")': 'trapped', 'CTXNEST()': '#ERROR!'}[p]):
+                raise Violation('after the history %r the parser evaluates %r to %r; expected %s' % (case['history'][:step + 1], p, g, w or 'no error'), g['error'] or enc(g['result']), w)
         # names that were only ever registered on the other parser object stay unknown here
         for p in ('EXTRA(1)', 'v_other'):
             g = quiet_parse(P, p)
@@ -186,6 +218,8 @@ def hist_classes(case):
         out.append('other-parser-registration')
     if 'BOOM' in hs or 'Z9' in hs:
         out.append('callback-aborted')
+    if 'CTX' in hs:
+        out.append('raised-inside-handler')
     if 'INNERFAIL' in hs:
         out.append('nested-failure')
     if any(isinstance(h, str) and h in ('1+', '((2)', 'SUM(1,', '"open', ')', '}{') for h in case['history']):
@@ -345,11 +379,13 @@ ORD_FAMILIES = [
     ['v_big', 'v_bigf', '9007199254740992', '9007199254740992.0', '9007199254740993', '"9007199254740992"'],
     ['100', '100.0', '1E2', '"100"', '"1E2"', '0.5', '"0.5"', '.5'],
 ]
+ORD_HUGE = ['LEN(FACT(2000))', 'FACT(2000)&""', 'CONCATENATE(FACT(2000))', 'UPPER(FACT(1800))', 'LEN(FACT(2000)&"")', 'LOWER(2^20000)', 'LEN(10^5000)', '(10^5000)&"x"', 'TEXTJOIN("",TRUE,FACT(2000))', 'PROPER(FACT(1900))', 'CLEAN(FACT(2100))',
+            'LEN(%s&"")' % ('1' * 5000), '%s=%s1' % ('1' * 5000, '1' * 5000), 'LEFT(FACT(2000),3)', 'VALUE(FACT(2000)&"")>0', 'T(FACT(2000))', 'EXACT(FACT(2000),1)']       # integers beyond the interpreter's 4300-digit int/str limit
 ORD_ATOMS = sorted(set(x for fam in ORD_FAMILIES for x in fam))
 ORD_WRAPS = ['(%s)&""', 'TYPE(%s)', '%s', 'ISNUMBER(%s)&ISTEXT(%s)&ISLOGICAL(%s)', 'N(%s)&""', 'T(%s)&"."', 'SUM(%s)&""', 'ABS(%s)&""', '(%s)*1&""', 'IF(%s,"y","n")', 'EXACT(%s,1)', 'MAX(%s,0)&""', '(-(%s))&""', 'TEXTJOIN("/",TRUE,%s)']
 ORD_OPS = ['+', '+', '-', '*', '*', '/', '&', '=', '<', '<>', '>=']     # no ^: exact integer powers of 2^53-sized operands run for hours inside CPython (scope note in DESIGN.md)
 # one-argument calls over the same families: a result cache on any of these functions that keys by == (or by name across functions) shows up as order dependence
-ORD_FUNCS = ['ABS(%s)', 'INT(%s)', 'SIGN(%s)', 'FACT(%s)', 'FACTDOUBLE(%s)', 'SQRT(%s)', 'EVEN(%s)', 'ODD(%s)', 'ROUND(%s,0)', 'ROUNDUP(%s,0)', 'ROUNDDOWN(%s,0)', 'CEILING(%s,1)', 'FLOOR(%s,1)', 'N(%s)', 'T(%s)', 'LEN(%s)',
+ORD_FUNCS = ['ABS(%s)', 'INT(%s)', 'SIGN(%s)', 'FACT(MIN(%s,25))', 'FACTDOUBLE(MIN(%s,25))', 'SQRT(%s)', 'EVEN(%s)', 'ODD(%s)', 'ROUND(%s,0)', 'ROUNDUP(%s,0)', 'ROUNDDOWN(%s,0)', 'CEILING(%s,1)', 'FLOOR(%s,1)', 'N(%s)', 'T(%s)', 'LEN(%s)',
              'ISEVEN(%s)', 'ISODD(%s)', 'DEC2HEX(%s)', 'BASE(%s,2)', 'ROMAN(%s)', 'CHAR(%s+64)', 'LEFT("abc",%s)', 'RIGHT("abc",%s)', 'REPT("a",%s)', 'CHOOSE(%s+1,"x","y","z")', 'INDEX({5,6,7},%s+1)', 'DATE(2020,%s,1)',
              'EXP(%s)', 'LN(%s+1)', 'COS(%s)', 'POWER(%s,2)', 'MOD(%s,2)', 'QUOTIENT(%s,1)', 'TEXT(%s,"0.0")', 'VALUE(%s)', 'UPPER(%s)', 'TRIM(%s)', 'NOT(%s)', 'AND(%s,1)', 'OR(%s,0)', 'IF(%s,1,2)', 'COUNT(%s)', 'COUNTA(%s)',
              'SUM(%s,0)', 'MAX(%s)', 'MIN(%s)', 'AVERAGE(%s)', 'PRODUCT(%s)', 'MEDIAN(%s)', 'YEAR(%s+40000)', 'WEEKDAY(%s+40000)', 'ERROR.TYPE(%s)', 'ISBLANK(%s)', 'COMPLEX(%s,1)', 'HEX2DEC(%s)', 'DECIMAL(%s,10)', 'ARABIC(ROMAN(%s+1))']
@@ -358,6 +394,8 @@ ORD_LISTS = ['SUM(v_l)&""', 'v_l&""', 'v_m&""', 'MAX(v_m)&""', 'v_l=v_m', 'TEXTJ
 
 @st.composite
 def order_formulas(draw):
+    if draw(st.integers(0, 7)) == 0:
+        return draw(st.lists(st.sampled_from(ORD_HUGE), min_size=2, max_size=4, unique=True))
     fam = draw(st.sampled_from(ORD_FAMILIES))
     atom = st.one_of(st.sampled_from(fam), st.sampled_from(fam), st.sampled_from(fam), st.sampled_from(ORD_ATOMS))
     out = []
@@ -419,7 +457,7 @@ def check_order(case):
 
 LAWS = [
     Law('history_independence', check_history, strategy=history_case, classes=hist_classes, quick=3500, thorough=150000, shards=(16, 16),
-        required=('callback-aborted', 'nested-failure', 'syntax-error', 'error-literal', 'rebinding', 'other-parser-registration', 'debug:True', 'debug:False'),
+        required=('callback-aborted', 'nested-failure', 'syntax-error', 'error-literal', 'rebinding', 'other-parser-registration', 'raised-inside-handler', 'debug:True', 'debug:False'),
         nontrivial=lambda c: 'callback-aborted' in hist_classes(c) or len(c['history']) >= 3,
         rule='a long-lived parser with fixed bindings evaluates a generated history of 1-12 formulas (valid ones, lexical and syntax errors, run-time errors, error literals, callbacks that raise, callbacks whose own nested parse fails) interleaved with re-bindings of variables and cell values and with registrations made on a different parser object; '
              'after every step each of 1-3 probe formulas must give the outcome a fresh parser given the same (re)bindings and no other history gives; the other debug setting must give the same outcomes; non-trivial = a callback-aborted evaluation or at least 3 steps'),
